@@ -31,6 +31,8 @@ def handler(st, opts):
         x = rand_tt(tt, N, cfg["r"], gen, dt, cfg["data"] == "decay")
         if cfg.get("scale", "unit") == "small":
             A = 1e-5 * A
+        if cfg["data"] == "zero":
+            x = tt.zeros(N, dtype=dt)
         ref = (dense_op(A) @ project.dense(x.cores).reshape(-1)).reshape(M)
         g = rand_tt(tt, M, 2, gen, dt) if cfg["guess"] != "none" else None
         kw = {}
@@ -73,6 +75,8 @@ def handler(st, opts):
         else:
             xt = rand_tt(tt, N, cfg["r"], gen, dt)
             b = (A @ xt).round(1e-14)
+        if cfg["data"] == "zero":
+            b = tt.zeros(N, dtype=dt)
         if cfg.get("scale", "unit") == "small":      # badly scaled data: the residual bound is relative
             b = 1e-5 * b
             A = 1e3 * A
@@ -97,7 +101,7 @@ def handler(st, opts):
                 continue
             xd = project.dense(X.cores).reshape(-1)
             outs[be] = xd
-            res = torch.linalg.norm(Ad @ xd - bd).item() / torch.linalg.norm(bd).item()
+            res = torch.linalg.norm(Ad @ xd - bd).item() / (torch.linalg.norm(bd).item() or 1.0)
             stats["res_over_eps_max"] = max(stats.get("res_over_eps_max", 0), res / eps)
             if res > TOL["C12"] * eps + 1e4 * U64:
                 problems.append(mk_problem("C17", "residual", cfg, "backend %s: ||Ax-b||/||b|| = %.3g > %g*eps (eps=%g)" % (be, res, TOL["C12"], eps), st, {"which": be}))
